@@ -615,8 +615,10 @@ static void respond(int kind, const struct rpdu *q)
 	case RS_FOREIGN_EOD:
 	case RS_FOREIGN_BOTH: {
 		/* a complete, otherwise acceptable response announcing a record the socket does not hold */
-		uint16_t crs = kind == RS_FOREIGN_EOD ? est_session : other_session;
-		uint16_t eods = kind == RS_FOREIGN_CR ? est_session : other_session;
+		/* foreign by one bit of the high octet (Cache Response alone) / of the low octet (End of Data alone): a
+		 * comparison over fewer bits than sixteen lets one of them through; both octets differ in "both" */
+		uint16_t crs = kind == RS_FOREIGN_EOD ? est_session : kind == RS_FOREIGN_CR ? (uint16_t)(est_session ^ 0x0100) : other_session;
+		uint16_t eods = kind == RS_FOREIGN_CR ? est_session : kind == RS_FOREIGN_EOD ? (uint16_t)(est_session ^ 0x0001) : other_session;
 
 		pdu_cache_response(&b, ver, crs);
 		put_other_record(&b, ver, is_reset ? 0 : held, false, 1);
